@@ -51,6 +51,18 @@ def pre_instantiate(pc, goal, cap=160):
     quants = []
     for a in pc:
         _positive_quantifiers(a, quants)
+    # the goal is refuted as (not goal): for a goal A => B the antecedent A is a hypothesis too
+    ante = []
+    g_ = goal
+    while z3.is_implies(g_):
+        ante.append(g_.arg(0))
+        g_ = g_.arg(1)
+    if z3.is_or(g_):
+        for c in g_.children():
+            if z3.is_not(c):
+                ante.append(c.arg(0))
+    for a in ante:
+        _positive_quantifiers(a, quants)
     if not quants:
         return []
     table, seen = {}, set()
